@@ -15,6 +15,7 @@ import JubakoModel.Lemmas.FuncsBytes
 import JubakoModel.Lemmas.FuncsContent
 import JubakoModel.Lemmas.FuncsParse
 import JubakoModel.Lemmas.FuncsOpen
+import JubakoModel.Lemmas.FuncsCluster
 
 namespace Jubako
 
@@ -142,5 +143,17 @@ theorem c01_content_open_is_source_open (f : Bytes) :
         ((readBlock f 64 60).bind fun cb => ContentHeader.decode cb)
         (fun w pos count => readBlock f pos (w * count)) :=
   gen_contentOpen f
+
+/-- **The tail of a cluster — where every blob starts and ends — is decoded as the source decodes it**:
+    `ClusterBuilder::parse` translated on every run (the offsets loop included: first offset 0 without a read,
+    the others read in the header's width and bounded by the data size, the data size last) equals
+    `ClusterTail.decode` on every tail whose header passes the model's checks and announces at least one blob. -/
+theorem c01_cluster_tail_parser_is_source_parser (bs : Bytes) (c : Nat)
+    (h4 : ¬ bs.length < 4) (hcomp : ¬ (bs.getD 0 0).toNat > 3)
+    (hosz : ¬ ((bs.getD 1 0).toNat = 0 ∨ (bs.getD 1 0).toNat > 8)) (hcount : leNat (slice bs 2 2) = c + 1) :
+    ((Generated.clusterBuilderParse (bs.drop 4) ((bs.getD 0 0).toNat, (bs.getD 1 0).toNat, c + 1)).map'
+        (fun r => (r.1.1.1, r.1.1.2.1, r.1.1.2.2, r.1.2))).Same
+      ((ClusterTail.decode bs).map' (fun t => (0 :: t.offsets ++ [t.dataSize], t.dataSize, t.comp, t.rawSize))) :=
+  gen_clusterBuilderParse bs c h4 hcomp hosz hcount
 
 end Jubako
